@@ -36,6 +36,12 @@ type pref struct {
 }
 
 type pppoeSys struct {
+	// conc (Engine B): the reference "live" map cannot be kept in step with the manager by concurrent
+	// threads; it is rebuilt from the manager's own primary table before Check, and the sessions handed
+	// to callers are remembered to detect a live session being overwritten.
+	conc    bool
+	handed  []*pppoe.Session
+	removed map[uint16]bool
 	m       *pppoe.SessionManager
 	live    map[uint16]*pref
 	creates int
@@ -88,8 +94,67 @@ func (s *pppoeSys) v(kind, site, f string, a ...any) {
 	s.viols = append(s.viols, explore.Viol{Kind: kind, Site: site, Detail: fmt.Sprintf(f, a...)})
 }
 
+func (s *pppoeSys) applyRaw(name string, args []string) string {
+	switch name {
+	case "Create":
+		s.creates++
+		sess, err := s.m.CreateSession(pMACs[args[0]], pServerMAC)
+		if err != nil {
+			return "err"
+		}
+		if s.presetAfter > 0 && s.creates == s.presetAfter {
+			s.m.VerifC20SetNextID(s.presetTo)
+		}
+		s.handed = append(s.handed, sess)
+		return "created" // the id depends on the schedule; it is checked, not logged
+	case "Remove":
+		id, _ := strconv.Atoi(args[0])
+		if s.removed == nil {
+			s.removed = map[uint16]bool{}
+		}
+		s.removed[uint16(id)] = true
+		s.m.RemoveSession(uint16(id))
+		return "ok"
+	}
+	panic("op not available under Engine B: " + name)
+}
+
+// rebuild (conc): live := the manager's primary table; every session handed to a caller whose id was
+// never the target of a Remove must still be THE session stored under its id.
+func (s *pppoeSys) rebuild() {
+	s.live = map[uint16]*pref{}
+	for _, x := range s.m.GetAllSessions() {
+		name := "?"
+		for n, m := range pMACs {
+			if m.String() == x.ClientMAC.String() {
+				name = n
+			}
+		}
+		if o, dup := s.live[x.ID]; dup {
+			s.v("unique", "GetAllSessions", "two live sessions carry id %d (%s and %s)", x.ID, o.mac, name)
+		}
+		s.live[x.ID] = &pref{mac: name, sess: x}
+	}
+	seen := map[uint16]*pppoe.Session{}
+	for _, h := range s.handed {
+		if h.ID == 0 {
+			s.v("id-zero", "CreateSession", "a session was given id 0")
+		}
+		if o, dup := seen[h.ID]; dup && o != h && !s.removed[h.ID] {
+			s.v("unique", "CreateSession", "id %d was handed to two clients (%s and %s) and never removed", h.ID, o.ClientMAC, h.ClientMAC)
+		}
+		seen[h.ID] = h
+		if !s.removed[h.ID] && s.m.GetSession(h.ID) != h {
+			s.v("unique", "CreateSession", "the session given id %d (client %s) was never removed but id %d no longer identifies it", h.ID, h.ClientMAC, h.ID)
+		}
+	}
+}
+
 func (s *pppoeSys) Apply(op string) string {
 	name, args := argsOf(op)
+	if s.conc {
+		return s.applyRaw(name, args)
+	}
 	switch name {
 	case "Create":
 		s.creates++
@@ -149,6 +214,9 @@ func (s *pppoeSys) Fingerprint() string {
 }
 
 func (s *pppoeSys) Check() []explore.Viol {
+	if s.conc {
+		s.rebuild()
+	}
 	// forward: id -> session
 	for _, id := range s.ids() {
 		r := s.live[uint16(id)]
